@@ -27,8 +27,8 @@ TRACE = "modem/Trace_Constellation.tla"
 TOL = 1e-9
 DEVS = ["SetPhaseOffsetDropsGray", "QamGrayIndexInverted", "QamAcceptsOne", "NoNormalisation", "ModulateWraps",
         "DetectRealOnly", "GrayTwice", "BerNotPerBit", "ModulateReusesBuffer", "AbsorbsTinyTerms",
-        "BlockwiseRoundsDown"]
-INVARIANTS = ["TypeOK", "Rejects", "TableOK", "RoundTrip", "ModulateLaw", "EarlierResultsUnchanged", "MLLaw", "Lemmas"]
+        "BlockwiseRoundsDown", "CopyRebuildsNatural"]
+INVARIANTS = ["TypeOK", "Rejects", "TableOK", "RoundTrip", "ModulateLaw", "EarlierResultsUnchanged", "CopyIsEqual", "MLLaw", "Lemmas"]
 RADII = [0.5, 1.0, 3.0, 1e-6, 1e6]           # PSK sample radius numbers 1..5 (4, 5 only in grid rows: D = 8, float64 resolves the margin) (ConstellationOps: the radius does not matter)
 
 QAM_ORDERS = [4 ** k for k in range(1, 7)]            # 4 .. 4096
@@ -339,6 +339,32 @@ def record_history(spec):
             lab_event("demod", obj.demodulate, z, n, shp, lay, a=[int(v) for v in a], b=[int(v) for v in b])
         recheck()
 
+    def copies(tb, ph):
+        """frame law: a pickled / copied / deep-copied object is the same modulator (same table, scale, M, K)"""
+        import copy
+        import pickle
+        made = {}
+        for how, fn in (("pickle", lambda: pickle.loads(pickle.dumps(obj))), ("copy.copy", lambda: copy.copy(obj)),
+                        ("copy.deepcopy", lambda: copy.deepcopy(obj))):
+            o, cp = outcome(fn)
+            e = {"op": "copy", "how": how, "out": o, "tab": [], "tabok": False, "scale": [0, 1], "scaleok": False, "mok": False}
+            if o == "ok":
+                o2, tc = outcome(lambda: Table(sk, M, cp.symbols, ph))
+                if o2 == "ok":
+                    e.update(tab=tc.tab, tabok=tc.tabok and len(tc.tab) == M, scale=tc.scale, scaleok=tc.scaleok)
+                    e["mok"] = bool(outcome(lambda: (cp.M, float(cp.K)) == (obj.M, float(obj.K)))[1])
+                    made[how] = cp
+            trace["events"].append(e)
+        # the copy is used like the original: a round trip through the pickled object
+        cp = made.get("pickle")
+        if cp is not None and tb.tabok and spec.get("calls", True) and M >= 1:
+            idx = np.asarray(rng.randint(0, M, size=(3, 4)))
+            o, res = outcome(lambda: cp.demodulate(np.asarray(cp.modulate(idx)).astype(complex)))
+            lab = [int(v) for v in np.asarray(res).reshape(-1)] if o == "ok" and np.size(res) == 12 else [-2] * 12
+            trace["events"].append({"op": "roundtrip", "idx": [int(v) for v in idx.reshape(-1)], "lab": lab,
+                                    "shapeok": o == "ok" and np.shape(res) == (3, 4), "shape": [3, 4], "argsok": True, "dt": "int64"})
+
+    copies(tb, ph0)
     calls(tb)
     for ph in phases[1:]:
         o, _ = outcome(lambda: obj.setPhaseOffset(ph))
@@ -348,6 +374,7 @@ def record_history(spec):
             ev["tabok"] = False
         trace["events"].append(ev)
         tables.append(tb)
+        copies(tb, ph)
         calls(tb)
     return trace, (obj, tables)
 
@@ -478,6 +505,7 @@ def model_devs(ctx, wanted):
         "ModulateReusesBuffer": (dict(kind="PSK", cards=[4], rowlen=16), "EarlierResultsUnchanged"),
         "AbsorbsTinyTerms": (dict(kind="BPSK", cards=[2], smode="scaled", nrows=2, rowlen=24, exps=(-200, -18, -9, 0, 7, 100)), "MLLaw"),
         "BlockwiseRoundsDown": (dict(kind="QAM", cards=[4], smode="seeded", nrows=1, rowlen=9), "MLLaw"),
+        "CopyRebuildsNatural": (dict(kind="QAM", cards=[4, 16], smode="seeded", nrows=1, rowlen=2), "CopyIsEqual"),
         "BerNotPerBit": (dict(kind="QAM", cards=[16], smode="seeded", nrows=1, rowlen=2), "Lemmas"),
     }
     jobs = [dict(table[d][0], dev=(d,), emit=False) for d in wanted]
